@@ -363,14 +363,42 @@ def _res(d):
     return "eos" if d == b"" else "msg " + d.hex()
 
 
+async def _connect(cls, scheme, writer):
+    """the client made by its own connect(): asyncio.open_connection / open_unix_connection are replaced by a stub that
+    builds the StreamReader with the `limit` connect() asks for (asyncio's default when it passes none)"""
+    from gallia.transports.base import TargetURI
+
+    made = {}
+
+    async def fake_open(*a, **k):
+        made["reader"] = asyncio.StreamReader(limit=k["limit"]) if k.get("limit") else asyncio.StreamReader()
+        return made["reader"], writer
+
+    o1, o2 = asyncio.open_connection, asyncio.open_unix_connection
+    asyncio.open_connection = fake_open
+    asyncio.open_unix_connection = fake_open
+    try:
+        uri = f"{scheme}://127.0.0.1:1" if scheme.startswith("tcp") else f"{scheme}:///tmp/verif-c19-client.sock"
+        tr = await cls.connect(TargetURI(uri))
+    finally:
+        asyncio.open_connection, asyncio.open_unix_connection = o1, o2
+    return tr, made["reader"]
+
+
+def _in_range(ops):
+    """whether everything the script sends / delivers stays within the property's message lengths (1..4095 bytes)"""
+    if any(len(o[1]) > 4095 for o in ops if o[0] in ("write", "request")):
+        return False
+    return max((len(l) for l in b"".join(o[1] for o in ops if o[0] == "feed").split(b"\n")), default=0) <= 2 * 4095 + 2
+
+
 async def _client_seq(cls, scheme, ops):
     """ops: ('feed', bytes) | ('eof',) | ('read', timeout) | ('write', bytes) | ('request', bytes, timeout) | ('close',)
     -> one canonical result string per op, in the format of the driver"""
     from gallia.transports.base import TargetURI
 
-    reader = asyncio.StreamReader()
     writer = _CountWriter()
-    tr = cls(TargetURI(f"{scheme}://127.0.0.1:1"), reader, writer)
+    tr, reader = await _connect(cls, scheme, writer)
     res = []
     for op in ops:
         before = len(writer.data)
@@ -462,19 +490,23 @@ def _seq_key(ops, i, impl, model):
 
 def _run_scripts(ctx, scripts, label_prefix, site):
     """scripts: (label, cls, scheme, ops); all run inside ONE virtual-time loop, compared op by op with crun"""
-    async def all_():
+    async def all_(part):
         out = []
-        for _label, cls, scheme, ops in scripts:
+        for _label, cls, scheme, ops in part:
             try:
-                out.append(await _client_seq(cls, scheme, ops))
+                out.append(await asyncio.wait_for(_client_seq(cls, scheme, ops), 120.0))  # virtual seconds: a hang is a result
+            except (TimeoutError, asyncio.TimeoutError):
+                out.append(["hang"])
             except Exception as e:  # noqa: BLE001
                 out.append([f"exc:{type(e).__name__}"])
         return out
 
-    try:
-        impl, _vt = vrun(all_())
-    except Stall:
-        impl = [["stall"]] * len(scripts)
+    impl = []
+    for a in range(0, len(scripts), 400):  # a fresh loop per part keeps the virtual clock small (timer resolution)
+        try:
+            impl += vrun(all_(scripts[a:a + 400]))[0]
+        except Stall:
+            impl += [["stall"]] * len(scripts[a:a + 400])
     batch, index = [], []
     for _label, _cls, _scheme, ops in scripts:
         ml = _seq_lines(ops)
@@ -488,15 +520,23 @@ def _run_scripts(ctx, scripts, label_prefix, site):
         ctx.nontrivial((scheme, repr(ops)))
         if r != mo:
             i = next((k for k in range(min(len(r), len(mo))) if r[k] != mo[k]), min(len(r), len(mo)))
+            if r in (["hang"], ["stall"]) or r[:1] == ["exc:"]:
+                ctx.disagree("lines-client-seq:script-" + r[0], f"{scheme}: the operation sequence does not come back",
+                             {"side": "client-seq", "scheme": scheme, "ops": _ops_json(ops)}, impl=r, model=mo,
+                             spec_violated=_in_range(ops), site=site)
+                continue
             if i >= len(ops):
                 ctx.disagree("lines-client-seq:" + (r[-1] if r else "no-result"), f"{scheme}: after the script: {r[-1:]}",
                              {"side": "client-seq", "scheme": scheme, "ops": _ops_json(ops)}, impl=r, model=mo,
                              spec_violated=True, site=site)
                 continue
             key = _seq_key(ops, i, r[i], mo[i])
+            # the property speaks about messages of 1..4095 bytes and about read / write; longer messages and close() are
+            # modelled (the code has no limit of its own) but a difference there alone does not falsify the property
+            in_prop = _in_range(ops[: i + 1]) and ops[i][0] != "close"
             ctx.disagree(key, f"{scheme} operation sequence differs from the client machine at op {i} ({ops[i][0]}): impl={r[i]} model={mo[i]}",
                          {"side": "client-seq", "scheme": scheme, "ops": _ops_json(ops[: i + 1])},
-                         impl=r[: i + 1], model=mo[: i + 1], spec_violated=True, site=site)
+                         impl=r[: i + 1], model=mo[: i + 1], spec_violated=in_prop, site=site)
     ctx.traces_validated += len(scripts)
     return impl
 
@@ -746,7 +786,7 @@ def _run_server_sequences(ctx, _srv):
     the bytes left unread, the number of requests handed to handle_request; against srvFeed / srvEof"""
     TX = _make_server_classes(_srv)
     rng = ctx.rng
-    alphabet = [b"3e00\n", b"3E00\r\n", b" 3e00 \n", b"\n", b"zz\n", b"ee01\n", b"1001\n", b"3e", b"00\n2701\n", b"3", b"\xc3\xa9\n"]
+    alphabet = [b"3e00\n", b"3E00\r\n", b" 3e00 \n", b"\n", b"zz\n", b"ee01\n", b"1001\n", b"3e", b"00\n2701\n", b"3", b"\xc3\xa9\n", b"3e 00\n"]
     cases = []
     L = ctx.pick(2, 3)
     frontier = [[]]
@@ -780,16 +820,18 @@ def _run_server_sequences(ctx, _srv):
         stream = m.hex().encode() + b"\n3e00\n"
         cases.append((f"long-{size}", [("feed", c) for c in _splits(rng, stream, "multi")] + [("eof",)]))
 
-    async def all_():
+    async def all_(a, b):
         out = []
-        for k, (_label, steps) in enumerate(cases):
+        for k, (_label, steps) in list(enumerate(cases))[a:b]:
             try:
-                out.append(await _server_seq(_srv, TX, k % 2, steps))
+                out.append(await asyncio.wait_for(_server_seq(_srv, TX, k % 2, steps), 600.0))
             except Exception as e:  # noqa: BLE001
                 out.append(([("-", f"harness:{type(e).__name__}", "-", -1)], "?", 0, []))
         return out
 
-    impl, _vt = vrun(all_())
+    impl = []
+    for a in range(0, len(cases), 200):
+        impl += vrun(all_(a, a + 200))[0]
     batch, index = [], []
     for _label, steps in cases:
         index.append(len(batch))
@@ -799,7 +841,7 @@ def _run_server_sequences(ctx, _srv):
             batch.append("sstate")
     out = ctx.lean(batch)
     zde = 0
-    for (label, steps), (obs, end, closes, log), off in zip(cases, impl, index):
+    for ck, ((label, steps), (obs, end, closes, log), off) in enumerate(zip(cases, impl, index)):
         ctx.ev()
         ctx.kind("server-seq:" + label)
         ctx.nontrivial(("srv-seq", repr(steps)))
@@ -821,10 +863,11 @@ def _run_server_sequences(ctx, _srv):
                 else:
                     key = "lines-server-seq:unread-bytes-differ"
                 ctx.disagree(key, f"server loop differs from srvFeed/srvEof after step {i}: impl={(w, e, left, n)} model={out[off + 2 + 2 * i]}",
-                             {"side": "server-seq", "kind": ["tcp", "unix"][cases.index((label, steps)) % 2],
+                             {"side": "server-seq", "kind": ["tcp", "unix"][ck % 2],
                               "steps": [[s[0]] + [x.hex() for x in s[1:]] for s in steps[: i + 1]]},
                              impl=[list(o) for o in obs[: i + 1]], model=[out[off + 2 + 2 * j] for j in range(i + 1)],
-                             spec_violated=True, site="TCPUDSServerTransport.handle_client / UDSServerTransport.handle_request")
+                             spec_violated=label not in ("long-4096", "long-20000"),
+                             site="TCPUDSServerTransport.handle_client / UDSServerTransport.handle_request")
                 break
         # one reply line per answered request, none for an unanswered one, in request order
         want = b"".join(r.hex().encode() + b"\n" for _m, r in log if isinstance(r, bytes))
@@ -885,7 +928,7 @@ class _Pipe:
                 del self.pending[:n]
                 self.reader.feed_data(chunk)
                 self.pieces += 1
-                await asyncio.sleep(self.rng.choice([0, 0, 0.001, 0.05, 0.3]))
+                await asyncio.sleep(self.rng.choice([0, 0, 0, 0.001, 0.001, 0.05, 0.05, 0.3, 0.3, 0.3, 7.0, 45.0 if self.rng.random() < 0.3 else 0.0]))
             if self.closed:
                 self.reader.feed_eof()
                 return
@@ -974,14 +1017,14 @@ def _run_exchange(ctx, _srv, variants):
         cases.append(("seeded", [m for m in _msgs(rng, rng.randint(1, 8), ctx.pick(120, 4095))]))
     runs = []
 
-    async def all_():
+    async def all_(a, b):
         out = []
-        for k, (_label, msgs) in enumerate(cases):
+        for k, (_label, msgs) in list(enumerate(cases))[a:b]:
             cls, scheme = variants[k % 2]
             mode = "pipelined" if (k // 2) % 2 == 0 else "lockstep"
             r = random_for(k)
             try:
-                out.append((mode, scheme, await _exchange(_srv, TX, None, (k // 4) % 2, cls, scheme, msgs, mode, r)))
+                out.append((mode, scheme, await asyncio.wait_for(_exchange(_srv, TX, None, (k // 4) % 2, cls, scheme, msgs, mode, r), 20000.0)))
             except Exception as e:  # noqa: BLE001
                 out.append((mode, scheme, {"got": [f"harness:{type(e).__name__}:{e}"], "timeouts": 0, "errors": [], "log": [], "c2s": b"", "s2c": b"",
                                            "pieces": (0, 0), "server_end": "?", "mutex_locked": False}))
@@ -992,7 +1035,9 @@ def _run_exchange(ctx, _srv, variants):
     def random_for(k):
         return _random.Random(f"C19:x:{ctx.seed}:{k}")
 
-    runs, _vt = vrun(all_())
+    runs = []
+    for a in range(0, len(cases), 25):
+        runs += vrun(all_(a, a + 25))[0]
     batch = [f"xchg {rng.randrange(1, 255):02x}{rng.randrange(0, 255):02x}05 {rng.randrange(1, 255):02x}01{rng.randrange(0, 255):02x} " + ",".join(hx(m) for m in msgs)
              for _label, msgs in cases]
     out = ctx.lean(batch)
@@ -1002,10 +1047,11 @@ def _run_exchange(ctx, _srv, variants):
         ctx.nontrivial(("xchg", tuple(msgs), mode, scheme))
         want = [x for x in mo.split(";") if x.startswith("msg")]
         case = {"side": "exchange", "scheme": scheme, "mode": mode, "requests": [m.hex() for m in msgs]}
+        in_prop = all(len(m) <= 4095 for m in msgs)
         sent = b"".join(m.hex().encode() + b"\n" for m in msgs)
         if r["c2s"] != sent:
             ctx.disagree("lines-exchange:request-bytes-differ", "the client put other bytes on the wire than hex(msg) + newline per request",
-                         case, impl=hx(r["c2s"])[:400], model=hx(sent)[:400], spec_violated=True, site="LinesTransportMixin.write")
+                         case, impl=hx(r["c2s"])[:400], model=hx(sent)[:400], spec_violated=in_prop, site="LinesTransportMixin.write")
         elif r["got"] != want:
             i = next((k for k in range(min(len(want), len(r["got"]))) if want[k] != r["got"][k]), min(len(want), len(r["got"])))
             kind = ("missing-reply" if len(r["got"]) < len(want) and i == len(r["got"]) else
@@ -1013,10 +1059,10 @@ def _run_exchange(ctx, _srv, variants):
             ctx.disagree(f"lines-exchange:{kind}", f"{scheme} {mode}: the client read back {len(r['got'])} results, the model's exchange gives {len(want)}; first difference at {i}",
                          case, impl={"reads": r["got"][: i + 2], "server_log": [(a.hex(), b.hex() if isinstance(b, bytes) else b) for a, b in r["log"]][: i + 3],
                                      "server_end": r["server_end"]},
-                         model=want[: i + 2], spec_violated=True, site="LinesTransportMixin.read <-> TCPUDSServerTransport.handle_client")
+                         model=want[: i + 2], spec_violated=in_prop, site="LinesTransportMixin.read <-> TCPUDSServerTransport.handle_client")
         elif r["mutex_locked"]:
             ctx.disagree("lines-exchange:mutex-left-locked", "transport mutex still held after the exchange", case, impl="locked", model="free",
-                         spec_violated=True, site="BaseTransport.request")
+                         spec_violated=in_prop, site="BaseTransport.request")
         ctx.kind("exchange:read-timeouts>0" if r["timeouts"] else "exchange:no-read-timeout")
     ctx.notes["exchange-pieces"] = {"c2s": sum(r["pieces"][0] for _m, _s, r in runs), "s2c": sum(r["pieces"][1] for _m, _s, r in runs),
                                     "read_timeouts": sum(r["timeouts"] for _m, _s, r in runs)}
@@ -1049,18 +1095,20 @@ def _run_exchange(ctx, _srv, variants):
                                   bytes([rng.randrange(256)]) + bytes(rng.randrange(256) for _ in range(rng.randint(0, 6)))]))
         real_cases.append(ms)
 
-    async def all_real():
+    async def all_real(a, b):
         out = []
-        for k, msgs in enumerate(real_cases):
+        for k, msgs in list(enumerate(real_cases))[a:b]:
             cls, scheme = variants[k % 2]
             mode = "pipelined" if (k // 2) % 2 == 0 else "lockstep"
             try:
-                out.append((mode, scheme, await _exchange(_srv, Rec, init_real, (k // 4) % 2, cls, scheme, msgs, mode, random_for(10000 + k))))
+                out.append((mode, scheme, await asyncio.wait_for(_exchange(_srv, Rec, init_real, (k // 4) % 2, cls, scheme, msgs, mode, random_for(10000 + k)), 20000.0)))
             except Exception as e:  # noqa: BLE001
-                out.append((mode, scheme, {"got": [f"harness:{type(e).__name__}:{e}"], "log": [], "timeouts": 0, "server_end": "?"}))
+                out.append((mode, scheme, {"got": [f"harness:{type(e).__name__}:{e}"], "log": [], "timeouts": 0, "server_end": "?", "mutex_locked": False}))
         return out
 
-    runs2, _vt = vrun(all_real())
+    runs2 = []
+    for a in range(0, len(real_cases), 25):
+        runs2 += vrun(all_real(a, a + 25))[0]
     for msgs, (mode, scheme, r) in zip(real_cases, runs2):
         ctx.ev()
         ctx.kind(f"exchange-real-server:{mode}")
